@@ -119,6 +119,11 @@ func (g *gen) load(fr *frame, n *node, st *State, addr ssa.Value, pos token.Pos)
 		v := g.loadGlobal(st, key, pt.Elem())
 		return v
 	}
+	if fv, ok := addr.(*ssa.FreeVar); ok && finalFreeVar(fv) {
+		if v, ok := g.finalVals[fv]; ok {
+			return v
+		}
+	}
 	ref := g.sval(fr, addr)
 	switch addr.(type) {
 	case *ssa.Alloc, *ssa.IndexAddr, *ssa.FieldAddr:
@@ -964,6 +969,11 @@ func (g *gen) closurePurity(fr *frame, n *node, st *State, mc *ssa.MakeClosure) 
 	e := &env{g: g, vars: map[string]binding{}, st: st, old: st, pkgPath: fs.PkgPath, imports: fs.Imports}
 	for i, fv := range fn.FreeVars {
 		e.vars[fv.Name()] = binding{g.val(fr, mc.Bindings[i]), xtOf(fv.Type())}
+		if pt, ok := fv.Type().Underlying().(*types.Pointer); ok && finalFreeVar(fv) {
+			if ref, ok := g.val(fr, mc.Bindings[i]).(string); ok {
+				e.vars[fv.Name()] = binding{g.loadAt(st, ref, pt.Elem()), xtOf(pt.Elem())}
+			}
+		}
 	}
 	var binds, sorts, terms []string
 	self := fr.vals[mc].(string)
@@ -1043,4 +1053,77 @@ func (g *gen) zeroGhostFields(n *node, st *State, ref string, t types.Type) {
 		srt := "(Array Ref " + xt.S + ")"
 		g.svAssign(n, st, name, srt, app("store", g.svGet(st, name, srt), ref, z))
 	}
+}
+
+// finalFreeVar: the captured variable is assigned exactly once (its initialisation) in the
+// enclosing function and never through any closure, so reading it always yields the same value.
+func finalFreeVar(fv *ssa.FreeVar) bool {
+	fn := fv.Parent()
+	parent := fn.Parent()
+	if parent == nil {
+		return false
+	}
+	idx := -1
+	for i, x := range fn.FreeVars {
+		if x == fv {
+			idx = i
+		}
+	}
+	if idx < 0 {
+		return false
+	}
+	var binding ssa.Value
+	for _, b := range parent.Blocks {
+		for _, in := range b.Instrs {
+			if mc, ok := in.(*ssa.MakeClosure); ok && mc.Fn == fn {
+				if binding != nil && binding != mc.Bindings[idx] {
+					return false
+				}
+				binding = mc.Bindings[idx]
+			}
+		}
+	}
+	al, ok := binding.(*ssa.Alloc)
+	if !ok || al.Referrers() == nil {
+		return false
+	}
+	stores := 0
+	for _, r := range *al.Referrers() {
+		switch u := r.(type) {
+		case *ssa.Store:
+			if u.Addr == al {
+				stores++
+			} else {
+				return false
+			}
+		case *ssa.UnOp, *ssa.DebugRef:
+		case *ssa.MakeClosure:
+			// no closure capturing the variable may store to it
+			cf := u.Fn.(*ssa.Function)
+			for bi, bv := range u.Bindings {
+				if bv != al {
+					continue
+				}
+				if cf.FreeVars[bi].Referrers() == nil {
+					continue
+				}
+				for _, cr := range *cf.FreeVars[bi].Referrers() {
+					switch cu := cr.(type) {
+					case *ssa.UnOp, *ssa.DebugRef:
+					case *ssa.Store:
+						if cu.Addr == cf.FreeVars[bi] {
+							return false
+						}
+					case *ssa.MakeClosure:
+						return false // nested capture: be conservative
+					default:
+						return false
+					}
+				}
+			}
+		default:
+			return false
+		}
+	}
+	return stores == 1
 }
